@@ -196,7 +196,9 @@ def strategy(tier):
 
 
 def budget(tier):
-    return 4000 if tier == 'quick' else 300000
+    # (a quarter of the cases and all mixed-kind models re-import the
+    # library per compared cell: ~45 ms each)
+    return 4000 if tier == 'quick' else 120000
 
 
 def snapshot(model):
